@@ -348,5 +348,6 @@ func main() {
 		w.Add(fmt.Sprintf("{| c_comp := %s; c_cfg := []; c_obs := [ORet 9 9]; c_complete := false |}", compCtor[c.spec.Comp]), side)
 	}
 	w.Close()
+	fmt.Printf("INFO group-errors-lock=%v (model flag elock: which of the group theorems applies to this tree)\n", sarama.VerifC12GroupHasErrorsLock())
 	fmt.Printf("RUNS %d cases %d monitor-failures %d crashes %d wall %.1fs\n", nruns, w.Total, nfail, len(crashes), time.Since(t0).Seconds())
 }
